@@ -776,6 +776,12 @@ def _corrupt_c09(events):
             del e["err"]
             return ev
     for e in ev:
+        if e.get("ev") == "server_decided" and e.get("res") == "err":
+            e["err"] = {"k": "LocalH3Error", "h3": "ClosedCriticalStreamError"}
+            return ev
+    if any(e.get("ev") == "reset" and e.get("meta", {}).get("variant") == "predecision" for e in ev):
+        return None
+    for e in ev:
         if e.get("ev") == "peer_closed" and e.get("why", {}).get("k") != "LocallyClosed":
             e["why"] = {"k": "LocallyClosed"}
             return ev
